@@ -90,6 +90,9 @@ def gen_field(rng, names=None):
         body = gen_line(rng).strip(" \t")
         if body == "" or body[0] in "#":
             body = "x" + body
+        if rng.random() < 0.08:
+            # an indented '#' line or a whitespace-only line inside the value: not a value line for either reader
+            text += gen_ws(rng, allow_empty=False) + rng.choice(["#c", "# x y", "", " "]) + "\n"
         text += gen_ws(rng, allow_empty=False) + body + "\n"
         lines.append(body)
     return text, name, "\n".join(lines)
